@@ -37,6 +37,9 @@ CHECKS["C09"] = ("fwsim", "exploration", "deterministic simulation: per-call sig
 CHECKS["C10"] = ("fwsim", "exploration", "deterministic simulation: differential run (machine among neighbours vs. alone on the id-projected history)",
    "The same fault-injected history drives the combined framework and the target alone (ids renamed); the target's actions must agree call by call.",
    "Target from the det family so the shared RNG cannot matter; neighbours never signal; framework fractions 0.", "DESIGN.md §6 C10")
+CHECKS["C06"] = ("drawspace", "fault_enumeration", "deterministic simulation with exhaustive enumeration of the random-source seam: all 2^23 uniform draws injected per probability vector",
+   "Per generated probability vector the complete space of the uniform draw is injected through the simulated random source and the chosen targets counted against exact rational thresholds; a stratified subset also goes through Framework::trigger_events. Exhaustive per vector, sampled across vectors.",
+   "Assumes the draw is the top 23 bits of one 32-bit word (rand 0.8 f32 gen_range). Non-dyadic vectors get a tolerance of one grid step per target for legitimate rounding of partial sums.", "DESIGN.md §6 C06")
 NOT_YET = {}
 NA = {
  "C12": "pure predicate over one machine value: no history, clock, random draw, interleaving or stored-byte fault takes part in deciding whether validation accepts a value; deciding it is input generation (property-based testing), not deterministic simulation (DESIGN.md §7)",
